@@ -31,13 +31,22 @@ for p, t in {
 }.items():
     CLAIMS[p] = ('exploration', 'Bounded run-time contract check on the real code: ' + t + '.', BOUNDED_NOTE, 'run-time contracts over a ghost model (bounded)')
 
+FAULT_NOTE = ('Bounded stand-in, never counted as proved: every I/O-relevant call (module-level open/write/flush/close/truncate, '
+              'os.rename/replace/link/unlink/remove/fsync/mkdir, Session.execute/commit) of ten operation variants on seeded prepared '
+              'containers is intercepted from outside the repository; bound = the operations and states listed in evidence. Trusts: '
+              'copying the folder before a call equals the state a killed process leaves; SQLite WAL commits are durable; directory '
+              'operations survive power loss; the interception sees every I/O call the library makes.')
+for p, t in {
+ 'C05': 'the folder is copied before every intercepted I/O call (user-space buffers lost) and a new handle must find every earlier object complete, no partial object under a key, never wrong bytes (an interrupted repack may fail loudly)',
+ 'C06': 'as C05, and every regular file of the copy is cut back to its content at its last fsync (empty if never synced); plus safe_flush_to_disk must fsync the flushed file and its directory for use_fullsync in {False, True}',
+ 'C17': 'each intercepted I/O call in turn raises OSError (OperationalError for SQL); afterwards the store is intact through a new handle and re-running the operation reaches its normal result (repack excepted)',
+}.items():
+    CLAIMS[p] = ('fault_enumeration', 'Bounded run-time contract check on the real code: ' + t + '.', FAULT_NOTE, 'I/O interposition + crash-state / fault postconditions (bounded)')
+CLAIMS['C08'] = ('exploration', 'Bounded run-time contract check on the real code: sequential histories over up to 3 handles on one folder; after every step every handle (whose snapshot the previous round of queries pinned) must answer has/get/meta/list exactly as the ghost map.', BOUNDED_NOTE, 'run-time contracts over a ghost model (bounded)')
+
 NA = {
  'C04': 'schedules of concurrent clients: contract-based deductive verification is silent on concurrency; the rely/guarantee design of DESIGN.md section 4 needs container-level contracts that pyvc does not reach (no SQL/directory model). No sound check was built, so the property is not claimed.',
- 'C05': 'crash points inside container-level operations: needs every I/O call of pack/repack/clean under contract with a crash-state invariant; container-level functions are outside pyvc\'s reach (DESIGN.md section 9). Not claimed.',
- 'C06': 'power-loss ordering inside container-level operations: only the leaf safe_flush_to_disk is within reach (checked under C18); the publish-after-durable ordering of pack_all_loose/repack is not decided. Not claimed.',
- 'C08': 'multi-handle histories depend on the SQLAlchemy session snapshot semantics, which have no contract within reach. Not claimed.',
  'C15': 'schedules of a concurrent backup (rsync/sqlite subprocesses): outside what contracts on Python functions can express here. Not claimed.',
- 'C17': 'single-fault sequences over every I/O call of container-level operations: same reach limit as C05. Not claimed.',
 }
 import sys
 extra = json.load(open('manifest_extra.json')) if len(sys.argv) > 1 else {}
